@@ -186,6 +186,12 @@ def rule_R4(ctx, R):
         if err:
             res.undecided(f["path"], "analysis", err, *_fnloc(ctx, f))
             continue
+        if not any(e["k"] == "TRY" for p in paths for e in p.events) and any(e["k"] == "ACQ" for p in paths for e in p.events):
+            # `Result<_, Key>` for another reason (a rejected input): the function blocks, it does not try; the clause below
+            # about paths that hand the bare key back still applies
+            tryless = True
+        else:
+            tryless = False
         k = _key_arg(R, f)
         oid = "a%d" % k[0]
         nfail = 0
@@ -225,7 +231,9 @@ def rule_R4(ctx, R):
                     res.bad(Violation("R4", f["path"], "fail-edge", bad + " (path: %s)" % p.trace()[:300], *_fnloc(ctx, f)))
                     break
         if not bad:
-            if nfail == 0:
+            if nfail == 0 and tryless:
+                res.ok(f["path"] + " (hands the key back only before acquiring)")
+            elif nfail == 0:
                 res.bad(Violation("R4", f["path"], "no-fail-edge", "TRY-role function has no failing path: it cannot report "
                                   "contention without waiting", *_fnloc(ctx, f)))
             else:
